@@ -10,6 +10,35 @@ PY = '/venv/bin/python'
 
 # id -> (category, technique, level text, level note, design ref)
 CHECKS = {
+    'C01': ('exploration',
+            'bounded-exhaustive enumeration of byte strings against an independent classifier of the statement',
+            'Every prefix and single-bit flip of every canonical frame (all counts 1..125 in the thorough tier), a full '
+            'field-grammar product (header x unit x function x byte count x bytes present x checksum variant x '
+            'trailing; echoed register/value variants; AA55 length/type/checksum variants) and all short strings over '
+            'the constants the validators compare against are fed to the real validators; acceptance implies the '
+            'independent classifier calls the string a well-formed answer, and only documented outcomes occur. '
+            'Representatives of each invalid class are also served through the real transports.',
+            'Trusted: mc/wire.classify_response (written from the statement).  Exhaustive over the stated finite '
+            'domain, not over all byte strings; the argument why the grammar reaches every position the validators '
+            'read is in DESIGN.md.',
+            'DESIGN.md section 3, C01'),
+    'C02': ('exploration',
+            'bounded-exhaustive enumeration of conforming frames built by an independent codec',
+            'All conforming frames over count 1..125 x fill 0..255 (x all unit addresses for counts 1/125, x trailing '
+            'bytes on RTU), all 65536 registers x boundary values and all 65536 values x boundary registers for '
+            'write echoes, AA55 payload length 0..255 x fill 0..255 per response type must make the real validator '
+            'return True; representatives go through the real transports and response_data() must equal the payload.',
+            'Trusted: frame builders of mc/wire.py.  Uniform and walking-one payloads only (the validators do not read '
+            'payload bytes except through the checksum).',
+            'DESIGN.md section 3, C02'),
+    'C03': ('exploration',
+            'bounded-exhaustive enumeration of request arguments, strict independent parser; full cycle of the tx counter',
+            'Requests built by the real command classes for per-dimension exhaustive argument grids are parsed back '
+            'by a strict independent parser and must decode to exactly the intended operation; the reachable state '
+            'space of the Modbus/TCP transaction counter (65534 states and the wrap) is walked completely from the '
+            'initial and from near-wrap states; a silent TCP peer must see pairwise different ids on retransmissions.',
+            'Trusted: strict parsers of mc/wire.py.  Grids are per-dimension exhaustive, not the full cartesian product.',
+            'DESIGN.md section 3, C03'),
     'C04': ('model_checking',
             'stateless exhaustive exploration of fault scripts on the real protocol objects over a modelled kernel',
             'Every fault script over the 20-letter per-transmission alphabet (x TCP connect outcomes) up to depth '
